@@ -1,2 +1,598 @@
-//! Independent, strict parser of the Prometheus text exposition format (owned by the C08 builder;
-//! reused by C07 / C15 / C18). Stub until filled in.
+//! Independent, strict parser of the Prometheus text exposition format (version 0.0.4), written from
+//! the format description ("Text format details" of prometheus/docs exposition_formats.md), not from
+//! the exporter's code. Owned by the C08 check; reused by C07 / C15 / C18.
+//!
+//! ```ignore
+//! let exp = vh::promparse::parse_exposition(&handle.render())?;      // strict: Err(String) on anything ill-formed
+//! for fam in &exp.families {                                          // in order of appearance
+//!     // fam.name, fam.mtype ("counter" | "gauge" | "histogram" | "summary" | "untyped"), fam.help (unescaped)
+//!     for s in &fam.samples {
+//!         // s.name (family name or family name + _bucket/_sum/_count), s.labels: Vec<(String, String)> in
+//!         // textual order with UNESCAPED values, s.value (the token as printed), s.value_f64(), s.label("le")
+//!     }
+//! }
+//! ```
+//!
+//! What "strict" means (every violation is an `Err` naming the 1-based line):
+//! * the text is empty or ends with `\n`; lines are split at `\n` only (`\r` is an ordinary character);
+//! * every line is blank, `# HELP name text`, `# TYPE name type` or a sample; free comments are rejected;
+//!   tokens may be separated by runs of blanks/tabs as the format allows;
+//! * metric names match `[a-zA-Z_:][a-zA-Z0-9_:]*`, label names `[a-zA-Z_][a-zA-Z0-9_]*`;
+//! * label values are double-quoted, only the escapes `\\`, `\"`, `\n` occur inside, no raw line feed;
+//!   HELP text only has the escapes `\\` and `\n`;
+//! * no label name twice in one sample; a trailing comma after the last label pair is allowed;
+//! * the value is a float as Go's `strconv.ParseFloat` reads it (decimal forms, `NaN`, `[+-]Inf`,
+//!   `[+-]Infinity`, case-insensitive); an optional integer timestamp may follow;
+//! * families: a `HELP` or `TYPE` line naming a new metric opens a group; at most one HELP and exactly one
+//!   TYPE per family, both before the family's samples; a family never appears in two groups; every sample
+//!   belongs to the current group and is named `family` or `family` + a suffix allowed for the type
+//!   (`_bucket` `_sum` `_count` for histogram, `_sum` `_count` for summary, none otherwise);
+//! * (option, on in strict mode) no two samples with the same name and the same label set.
+//!
+//! `parse_exposition_with` can relax the last two rules: with `allow_foreign_sample_names` a sample whose
+//! name does not fit the current family is still attached to it and its index is reported in
+//! `Exposition::foreign` (used to observe finding CF08: unit suffixes change the sample names but not
+//! the TYPE line).
+
+use std::collections::HashSet;
+
+/// One sample line.
+#[derive(Clone, Debug, PartialEq)]
+pub struct Sample {
+    /// Metric name as printed (family name, possibly with `_bucket` / `_sum` / `_count`).
+    pub name: String,
+    /// Label pairs in textual order; values are unescaped.
+    pub labels: Vec<(String, String)>,
+    /// The value token exactly as printed.
+    pub value: String,
+    /// Optional timestamp token.
+    pub timestamp: Option<String>,
+    /// 1-based line number in the exposition.
+    pub line: usize,
+}
+
+impl Sample {
+    /// The value as f64 (`NaN`, `+Inf`, `inf`, ... handled like Go's ParseFloat).
+    pub fn value_f64(&self) -> Option<f64> {
+        parse_go_float(&self.value)
+    }
+    /// Value of the label `name`, if present.
+    pub fn label(&self, name: &str) -> Option<&str> {
+        self.labels.iter().find(|(k, _)| k == name).map(|(_, v)| v.as_str())
+    }
+    /// Labels without the given names (e.g. `le`, `quantile`), sorted by name: the identity of a series.
+    pub fn series_labels(&self, without: &[&str]) -> Vec<(String, String)> {
+        let mut v: Vec<(String, String)> =
+            self.labels.iter().filter(|(k, _)| !without.contains(&k.as_str())).cloned().collect();
+        v.sort();
+        v
+    }
+}
+
+/// One metric family: its TYPE, optional HELP and its samples in order of appearance.
+#[derive(Clone, Debug, PartialEq)]
+pub struct Family {
+    pub name: String,
+    /// `counter`, `gauge`, `histogram`, `summary` or `untyped`.
+    pub mtype: String,
+    /// Unescaped HELP text, if the family has a HELP line.
+    pub help: Option<String>,
+    pub samples: Vec<Sample>,
+    /// 1-based line number of the TYPE line.
+    pub type_line: usize,
+}
+
+/// A parsed exposition.
+#[derive(Clone, Debug, PartialEq, Default)]
+pub struct Exposition {
+    /// Families in order of appearance.
+    pub families: Vec<Family>,
+    /// `(family index, sample index)` of samples whose name is not the family name plus an allowed
+    /// suffix. Always empty unless `ParseOptions::allow_foreign_sample_names` was set.
+    pub foreign: Vec<(usize, usize)>,
+    /// Line counts: HELP, TYPE, sample, blank.
+    pub n_help: usize,
+    pub n_type: usize,
+    pub n_sample: usize,
+    pub n_blank: usize,
+}
+
+impl Exposition {
+    pub fn family(&self, name: &str) -> Option<&Family> {
+        self.families.iter().find(|f| f.name == name)
+    }
+    /// All samples of all families.
+    pub fn samples(&self) -> impl Iterator<Item = &Sample> {
+        self.families.iter().flat_map(|f| f.samples.iter())
+    }
+    /// Total number of label pairs over all samples.
+    pub fn n_labels(&self) -> usize {
+        self.samples().map(|s| s.labels.len()).sum()
+    }
+}
+
+/// Which of the relaxable rules are enforced.
+#[derive(Clone, Debug)]
+pub struct ParseOptions {
+    /// Attach a sample whose name does not fit the current family to it anyway and report it in
+    /// `Exposition::foreign` instead of failing.
+    pub allow_foreign_sample_names: bool,
+    /// Fail on two samples with equal name and equal label set.
+    pub reject_duplicate_series: bool,
+}
+
+impl ParseOptions {
+    pub fn strict() -> ParseOptions {
+        ParseOptions { allow_foreign_sample_names: false, reject_duplicate_series: true }
+    }
+}
+
+/// Strict parse (see module documentation).
+pub fn parse_exposition(text: &str) -> Result<Exposition, String> {
+    parse_exposition_with(text, &ParseOptions::strict())
+}
+
+/// Suffixes a sample of a family of type `mtype` may carry.
+pub fn allowed_suffixes(mtype: &str) -> &'static [&'static str] {
+    match mtype {
+        "histogram" => &["_bucket", "_sum", "_count"],
+        "summary" => &["_sum", "_count"],
+        _ => &[],
+    }
+}
+
+/// Does `sample` name a sample of family `family` of type `mtype`?
+pub fn sample_belongs(family: &str, mtype: &str, sample: &str) -> bool {
+    if sample == family {
+        return true;
+    }
+    match sample.strip_prefix(family) {
+        Some(rest) => allowed_suffixes(mtype).contains(&rest),
+        None => false,
+    }
+}
+
+pub fn is_metric_name(s: &str) -> bool {
+    let mut it = s.chars();
+    match it.next() {
+        Some(c) if c.is_ascii_alphabetic() || c == '_' || c == ':' => {}
+        _ => return false,
+    }
+    it.all(|c| c.is_ascii_alphanumeric() || c == '_' || c == ':')
+}
+
+pub fn is_label_name(s: &str) -> bool {
+    let mut it = s.chars();
+    match it.next() {
+        Some(c) if c.is_ascii_alphabetic() || c == '_' => {}
+        _ => return false,
+    }
+    it.all(|c| c.is_ascii_alphanumeric() || c == '_')
+}
+
+/// Go's strconv.ParseFloat restricted to what the text format uses (no hex floats, no underscores).
+pub fn parse_go_float(tok: &str) -> Option<f64> {
+    let lower = tok.to_ascii_lowercase();
+    let (neg, body) = match lower.as_bytes().first() {
+        Some(b'+') => (false, &lower[1..]),
+        Some(b'-') => (true, &lower[1..]),
+        _ => (false, &lower[..]),
+    };
+    if body == "inf" || body == "infinity" {
+        return Some(if neg { f64::NEG_INFINITY } else { f64::INFINITY });
+    }
+    if lower == "nan" {
+        return Some(f64::NAN);
+    }
+    // decimal: digits [ . digits ] | . digits, optional exponent
+    let b = body.as_bytes();
+    let mut i = 0;
+    let mut int_digits = 0;
+    while i < b.len() && b[i].is_ascii_digit() {
+        i += 1;
+        int_digits += 1;
+    }
+    let mut frac_digits = 0;
+    if i < b.len() && b[i] == b'.' {
+        i += 1;
+        while i < b.len() && b[i].is_ascii_digit() {
+            i += 1;
+            frac_digits += 1;
+        }
+    }
+    if int_digits + frac_digits == 0 {
+        return None;
+    }
+    if i < b.len() && b[i] == b'e' {
+        i += 1;
+        if i < b.len() && (b[i] == b'+' || b[i] == b'-') {
+            i += 1;
+        }
+        let mut exp_digits = 0;
+        while i < b.len() && b[i].is_ascii_digit() {
+            i += 1;
+            exp_digits += 1;
+        }
+        if exp_digits == 0 {
+            return None;
+        }
+    }
+    if i != b.len() {
+        return None;
+    }
+    // Rust's parser accepts every string of this shape ("1." and ".5" included)
+    let v: f64 = body.parse().ok()?;
+    Some(if neg { -v } else { v })
+}
+
+fn is_int_token(tok: &str) -> bool {
+    let body = tok.strip_prefix('-').unwrap_or(tok);
+    !body.is_empty() && body.bytes().all(|b| b.is_ascii_digit())
+}
+
+struct Cursor<'a> {
+    cs: &'a [char],
+    i: usize,
+}
+
+impl<'a> Cursor<'a> {
+    fn peek(&self) -> Option<char> {
+        self.cs.get(self.i).cloned()
+    }
+    fn next(&mut self) -> Option<char> {
+        let c = self.peek();
+        if c.is_some() {
+            self.i += 1;
+        }
+        c
+    }
+    fn skip_ws(&mut self) -> usize {
+        let s = self.i;
+        while matches!(self.peek(), Some(' ') | Some('\t')) {
+            self.i += 1;
+        }
+        self.i - s
+    }
+    fn token(&mut self) -> String {
+        let s = self.i;
+        while let Some(c) = self.peek() {
+            if c == ' ' || c == '\t' {
+                break;
+            }
+            self.i += 1;
+        }
+        self.cs[s..self.i].iter().collect()
+    }
+    fn rest(&mut self) -> String {
+        let s: String = self.cs[self.i..].iter().collect();
+        self.i = self.cs.len();
+        s
+    }
+    fn at_end(&self) -> bool {
+        self.i >= self.cs.len()
+    }
+    /// longest run of characters satisfying `first` (first char) / `more` (others)
+    fn name(&mut self, first: fn(char) -> bool, more: fn(char) -> bool) -> String {
+        let s = self.i;
+        if let Some(c) = self.peek() {
+            if first(c) {
+                self.i += 1;
+                while let Some(c) = self.peek() {
+                    if more(c) {
+                        self.i += 1;
+                    } else {
+                        break;
+                    }
+                }
+            }
+        }
+        self.cs[s..self.i].iter().collect()
+    }
+}
+
+fn mn_first(c: char) -> bool {
+    c.is_ascii_alphabetic() || c == '_' || c == ':'
+}
+fn mn_more(c: char) -> bool {
+    c.is_ascii_alphanumeric() || c == '_' || c == ':'
+}
+fn ln_first(c: char) -> bool {
+    c.is_ascii_alphabetic() || c == '_'
+}
+fn ln_more(c: char) -> bool {
+    c.is_ascii_alphanumeric() || c == '_'
+}
+
+enum Line {
+    Blank,
+    Help(String, String),
+    Type(String, String),
+    Sample(Sample),
+}
+
+fn unescape_help(s: &str) -> Result<String, String> {
+    let mut out = String::new();
+    let mut it = s.chars();
+    while let Some(c) = it.next() {
+        if c == '\\' {
+            match it.next() {
+                Some('\\') => out.push('\\'),
+                Some('n') => out.push('\n'),
+                Some(o) => return Err(format!("invalid escape sequence \\{} in HELP text", o)),
+                None => return Err("HELP text ends inside an escape sequence".to_string()),
+            }
+        } else {
+            out.push(c);
+        }
+    }
+    Ok(out)
+}
+
+fn parse_line(line: &str, no: usize) -> Result<Line, String> {
+    let cs: Vec<char> = line.chars().collect();
+    let mut c = Cursor { cs: &cs, i: 0 };
+    c.skip_ws();
+    if c.at_end() {
+        return Ok(Line::Blank);
+    }
+    if c.peek() == Some('#') {
+        c.next();
+        c.skip_ws();
+        let kw = c.token();
+        if kw != "HELP" && kw != "TYPE" {
+            return Err("comment line (only HELP and TYPE may follow '#')".to_string());
+        }
+        if c.skip_ws() == 0 {
+            return Err(format!("{} line without a metric name", kw));
+        }
+        let name = c.name(mn_first, mn_more);
+        if name.is_empty() {
+            return Err(format!("{} line without a valid metric name", kw));
+        }
+        if kw == "HELP" {
+            if c.at_end() {
+                return Ok(Line::Help(name, String::new()));
+            }
+            if c.skip_ws() == 0 {
+                return Err("invalid character in the metric name of a HELP line".to_string());
+            }
+            // the first blank separates name and text; the text runs to the end of the line
+            let doc = unescape_help(&c.rest())?;
+            return Ok(Line::Help(name, doc));
+        }
+        if c.skip_ws() == 0 {
+            return Err("invalid character in the metric name of a TYPE line, or type missing".to_string());
+        }
+        let ty = c.token();
+        c.skip_ws();
+        if !c.at_end() {
+            return Err("text after the type of a TYPE line".to_string());
+        }
+        return match ty.as_str() {
+            "counter" | "gauge" | "histogram" | "summary" | "untyped" => Ok(Line::Type(name, ty)),
+            _ => Err(format!("unknown metric type {:?}", ty)),
+        };
+    }
+    // sample
+    let name = c.name(mn_first, mn_more);
+    if name.is_empty() {
+        return Err("line is neither HELP, TYPE, sample nor blank".to_string());
+    }
+    let mut labels: Vec<(String, String)> = vec![];
+    let ws = c.skip_ws();
+    if c.peek() == Some('{') {
+        c.next();
+        loop {
+            c.skip_ws();
+            if c.peek() == Some('}') {
+                c.next();
+                break;
+            }
+            let ln = c.name(ln_first, ln_more);
+            if ln.is_empty() {
+                return Err("invalid start of a label name".to_string());
+            }
+            c.skip_ws();
+            if c.next() != Some('=') {
+                return Err(format!("label name {:?} not followed by '='", ln));
+            }
+            c.skip_ws();
+            if c.next() != Some('"') {
+                return Err(format!("value of label {:?} is not quoted", ln));
+            }
+            let mut v = String::new();
+            loop {
+                match c.next() {
+                    None => return Err(format!("value of label {:?} is not terminated on its line", ln)),
+                    Some('"') => break,
+                    Some('\\') => match c.next() {
+                        Some('\\') => v.push('\\'),
+                        Some('"') => v.push('"'),
+                        Some('n') => v.push('\n'),
+                        Some(o) => return Err(format!("invalid escape sequence \\{} in a label value", o)),
+                        None => return Err("line ends inside an escape sequence of a label value".to_string()),
+                    },
+                    Some(o) => v.push(o),
+                }
+            }
+            if labels.iter().any(|(k, _)| *k == ln) {
+                return Err(format!("duplicate label name {:?}", ln));
+            }
+            labels.push((ln, v));
+            c.skip_ws();
+            match c.next() {
+                Some(',') => continue,
+                Some('}') => break,
+                _ => return Err("label pairs not separated by a comma".to_string()),
+            }
+        }
+        c.skip_ws();
+    } else if ws == 0 {
+        return Err("invalid character in a metric name".to_string());
+    }
+    let value = c.token();
+    if value.is_empty() {
+        return Err("sample without a value".to_string());
+    }
+    if parse_go_float(&value).is_none() {
+        return Err(format!("sample value {:?} is not a float", value));
+    }
+    c.skip_ws();
+    let mut timestamp = None;
+    if !c.at_end() {
+        let ts = c.token();
+        if !is_int_token(&ts) {
+            return Err(format!("timestamp {:?} is not an integer", ts));
+        }
+        timestamp = Some(ts);
+        c.skip_ws();
+        if !c.at_end() {
+            return Err("text after the timestamp".to_string());
+        }
+    }
+    Ok(Line::Sample(Sample { name, labels, value, timestamp, line: no }))
+}
+
+struct Group {
+    name: String,
+    mtype: Option<(String, usize)>,
+    help: Option<String>,
+    samples: Vec<Sample>,
+}
+
+/// Parse with explicit options.
+pub fn parse_exposition_with(text: &str, opts: &ParseOptions) -> Result<Exposition, String> {
+    let mut exp = Exposition::default();
+    if text.is_empty() {
+        return Ok(exp);
+    }
+    if !text.ends_with('\n') {
+        return Err("last line is not terminated by a line feed".to_string());
+    }
+    let body = &text[..text.len() - 1];
+    let mut cur: Option<Group> = None;
+    let mut seen_names: HashSet<String> = HashSet::new();
+    let mut seen_series: HashSet<(String, Vec<(String, String)>)> = HashSet::new();
+
+    fn close(cur: &mut Option<Group>, exp: &mut Exposition) -> Result<(), String> {
+        if let Some(g) = cur.take() {
+            match g.mtype {
+                None => return Err(format!("family {:?} has no TYPE line", g.name)),
+                Some((t, l)) => exp.families.push(Family { name: g.name, mtype: t, help: g.help, samples: g.samples, type_line: l }),
+            }
+        }
+        Ok(())
+    }
+
+    for (idx, raw) in body.split('\n').enumerate() {
+        let no = idx + 1;
+        let line = parse_line(raw, no).map_err(|e| format!("line {}: {}", no, e))?;
+        match line {
+            Line::Blank => exp.n_blank += 1,
+            Line::Help(name, doc) => {
+                exp.n_help += 1;
+                let same = cur.as_ref().map_or(false, |g| g.name == name);
+                if same {
+                    let g = cur.as_mut().unwrap();
+                    if g.help.is_some() {
+                        return Err(format!("line {}: second HELP line for family {:?}", no, name));
+                    }
+                    if !g.samples.is_empty() {
+                        return Err(format!("line {}: HELP line after samples of family {:?}", no, name));
+                    }
+                    g.help = Some(doc);
+                } else {
+                    close(&mut cur, &mut exp).map_err(|e| format!("line {}: {}", no, e))?;
+                    if !seen_names.insert(name.clone()) {
+                        return Err(format!("line {}: family {:?} appears in more than one group", no, name));
+                    }
+                    cur = Some(Group { name, mtype: None, help: Some(doc), samples: vec![] });
+                }
+            }
+            Line::Type(name, ty) => {
+                exp.n_type += 1;
+                let same = cur.as_ref().map_or(false, |g| g.name == name);
+                if same {
+                    let g = cur.as_mut().unwrap();
+                    if g.mtype.is_some() {
+                        return Err(format!("line {}: second TYPE line for family {:?}", no, name));
+                    }
+                    if !g.samples.is_empty() {
+                        return Err(format!("line {}: TYPE line after samples of family {:?}", no, name));
+                    }
+                    g.mtype = Some((ty, no));
+                } else {
+                    close(&mut cur, &mut exp).map_err(|e| format!("line {}: {}", no, e))?;
+                    if !seen_names.insert(name.clone()) {
+                        return Err(format!("line {}: family {:?} appears in more than one group", no, name));
+                    }
+                    cur = Some(Group { name, mtype: Some((ty, no)), help: None, samples: vec![] });
+                }
+            }
+            Line::Sample(s) => {
+                exp.n_sample += 1;
+                let g = match cur.as_mut() {
+                    Some(g) if g.mtype.is_some() => g,
+                    _ => return Err(format!("line {}: sample {:?} without a preceding TYPE line of its family", no, s.name)),
+                };
+                let ty = g.mtype.as_ref().unwrap().0.clone();
+                if !sample_belongs(&g.name, &ty, &s.name) {
+                    if !opts.allow_foreign_sample_names {
+                        return Err(format!(
+                            "line {}: sample name {:?} is not family name {:?} plus a suffix allowed for type {}",
+                            no, s.name, g.name, ty
+                        ));
+                    }
+                    exp.foreign.push((exp.families.len(), g.samples.len()));
+                }
+                if opts.reject_duplicate_series {
+                    let mut ls = s.labels.clone();
+                    ls.sort();
+                    if !seen_series.insert((s.name.clone(), ls)) {
+                        return Err(format!("line {}: duplicate sample {:?} with the same label set", no, s.name));
+                    }
+                }
+                g.samples.push(s);
+            }
+        }
+    }
+    close(&mut cur, &mut exp)?;
+    Ok(exp)
+}
+
+#[cfg(test)]
+mod tests {
+    use super::*;
+
+    #[test]
+    fn accepts_plain() {
+        let t = "# HELP a_b some \\\\ text \\n more\n# TYPE a_b counter\na_b{k=\"v \\\" \\\\ \\n x\",z=\"\"} 12\na_b 0.5\n\n# TYPE h histogram\nh_bucket{le=\"+Inf\"} 3\nh_sum NaN\nh_count 3\n\n";
+        let e = parse_exposition(t).unwrap();
+        assert_eq!(e.families.len(), 2);
+        assert_eq!(e.families[0].help.as_deref(), Some("some \\ text \n more"));
+        assert_eq!(e.families[0].samples[0].labels[0].1, "v \" \\ \n x");
+        assert_eq!(e.n_sample, 5);
+    }
+
+    #[test]
+    fn rejects() {
+        for bad in [
+            "a 1",                                   // no final LF
+            "# TYPE a counter\nb 1\n",               // foreign sample
+            "a 1\n",                                 // no TYPE
+            "# TYPE a counter\na{k=\"v\"x=\"y\"} 1\n", // missing comma
+            "# TYPE a counter\na{k=\"v\\t\"} 1\n",   // bad escape
+            "# TYPE a counter\na 1\n# TYPE a counter\n", // two groups
+            "# TYPE a counter\na 1\n# HELP a x\n",
+            "# hello\n",
+            "# TYPE a counter\n1a 1\n",
+            "# TYPE a counter\na{1k=\"v\"} 1\n",
+            "# TYPE a counter\na{k=\"v\",k=\"w\"} 1\n",
+            "# TYPE a counter\na x\n",
+            "# HELP a x\n\n",
+            "# HELP a bad \\q\n# TYPE a counter\n",
+        ] {
+            assert!(parse_exposition(bad).is_err(), "{:?}", bad);
+        }
+    }
+}
